@@ -298,9 +298,11 @@ bool vh::run_case(std::string const& op, Toks& in, Out& impl, Out& ref)
             auto r3 = ym - ec::months{-dm};
             auto r4 = ym;
             r4 += ec::months{dm};
+            auto r7 = ym;
+            r7 -= ec::months{-dm};
             auto r5 = ec::year_month_day{ec::year{y}, ec::month{m}, ec::day{1}} + ec::months{dm};
             auto r6 = ec::year_month_day_last{ec::year{y}, ec::month_day_last{ec::month{m}}} + ec::months{dm};
-            bool same = (r == r2) && (r == r3) && (r == r4) && r5.year() == r.year() && r5.month() == r.month()
+            bool same = (r == r2) && (r == r3) && (r == r4) && (r == r7) && r5.year() == r.year() && r5.month() == r.month()
                      && r6.year() == r.year() && r6.month() == r.month();
             if (!same) { o.tok("routes-differ"); }
             o.tok("ok").num(static_cast<int>(r.year())).num(static_cast<unsigned>(r.month()));
@@ -609,12 +611,48 @@ static bool run_case2(std::string const& op, Toks& in, Out& impl, Out& ref)
         }
         return true;
     }
+    if (op == "civil_any") {
+        // any int32 day count for which z + 719468 does not overflow; outside the supported years the
+        // values are unspecified (no reference), but the call is defined and must match the model
+        auto z = static_cast<int>(in.num());
+        guarded(impl, [&](Out& o) { ymd_out(o, ec::year_month_day{ec::sys_days{ec::days{z}}}); });
+        return true;
+    }
+    if (op == "days_raw") {
+        // any stored year / month / day value: defined (no overflow), value unspecified unless year and month are ok
+        auto y = static_cast<int>(in.num()); auto m = static_cast<unsigned>(in.num()); auto d = static_cast<unsigned>(in.num());
+        guarded(impl, [&](Out& o) {
+            auto x = ec::year_month_day{ec::year{y}, ec::month{m}, ec::day{d}};
+            o.tok("ok").num(cnt(static_cast<ec::sys_days>(x)));
+        });
+        return true;
+    }
     if (op == "eq_all") {
         int a[4]; int b[4];
         for (auto& v : a) { v = static_cast<int>(in.num()); }
         for (auto& v : b) { v = static_cast<int>(in.num()); }
         guarded(impl, [&](Out& o) { eq_all<E>(o, a, b); });
         eq_all<S>(ref, a, b);
+        return true;
+    }
+    if (op == "constants") {
+        // named constants, literals, year::min/max
+        using namespace etl::literals::chrono_literals;
+        guarded(impl, [&](Out& o) {
+            o.tok("ok");
+            for (auto m : {ec::January, ec::February, ec::March, ec::April, ec::May, ec::June, ec::July, ec::August,
+                     ec::September, ec::October, ec::November, ec::December}) { uo(o, m); }
+            for (auto w : {ec::Sunday, ec::Monday, ec::Tuesday, ec::Wednesday, ec::Thursday, ec::Friday, ec::Saturday}) { o.num(w.c_encoding()); }
+            yo(o, ec::year::min()); yo(o, ec::year::max()); yo(o, 2024_y); uo(o, 31_d); yo(o, 40000_y);
+        });
+        {
+            using namespace std::chrono;
+            ref.tok("ok");
+            for (auto m : {sc::January, sc::February, sc::March, sc::April, sc::May, sc::June, sc::July, sc::August,
+                     sc::September, sc::October, sc::November, sc::December}) { uo(ref, m); }
+            for (auto w : {sc::Sunday, sc::Monday, sc::Tuesday, sc::Wednesday, sc::Thursday, sc::Friday, sc::Saturday}) { ref.num(w.c_encoding()); }
+            yo(ref, sc::year::min()); yo(ref, sc::year::max()); yo(ref, 2024y); uo(ref, 31d); yo(ref, sc::year{40000});
+        }
         return true;
     }
     if (op == "slash") {
